@@ -3,7 +3,9 @@
 import os, glob
 C = os.path.join(os.path.dirname(os.path.dirname(os.path.abspath(__file__))), 'coq')
 fs = sorted(os.path.relpath(f, C) for f in glob.glob(os.path.join(C, '*.v')) + glob.glob(os.path.join(C, 'gen', '*.v')) + glob.glob(os.path.join(C, 'Properties', '*.v')))
-fs = [f for f in fs if f != 'Extract.v']
+wip = os.path.join(C, 'WIP')
+skip = set(open(wip).read().split()) if os.path.exists(wip) else set()
+fs = [f for f in fs if f != 'Extract.v' and f not in skip and not os.path.basename(f).startswith(('Scratch', 'scratch', 'Tmp', 'tmp', 'Probe', 'probe'))]
 new = '-Q . JP\n' + '\n'.join(fs) + '\n'
 p = os.path.join(C, '_CoqProject')
 if not os.path.exists(p) or open(p).read() != new:
